@@ -110,6 +110,7 @@ type hGenOpts struct {
 	InitVer   bool
 	Checks    bool // generate explicit check ops
 	ManySaves bool
+	Restarts  bool // more reopen / prune ops (C26)
 }
 
 func hDrawRun(rt *rapid.T, o hGenOpts, label string, del bool) (a, n, s int) {
@@ -194,6 +195,9 @@ func hDrawHistory(rt *rapid.T, o hGenOpts) hCase {
 		{"reopen", 5}, {"prune", 7}, {"iopen", 3}, {"iclose", 2}}
 	if o.ManySaves {
 		table = append(table, wop{"save", 10})
+	}
+	if o.Restarts {
+		table = append(table, wop{"reopen", 7}, wop{"prune", 5})
 	}
 	if o.Checks {
 		table = append(table, wop{"check", 7})
@@ -1352,8 +1356,22 @@ func (r *hRun) readerOp(op *hOp) error {
 		return nil
 	case "rread":
 		rd := r.rd[op.A]
-		if rd == nil || rd.imm == nil {
-			return nil
+		if rd == nil {
+			// no loader in this slot yet: start one now (fast index on, unless
+			// the selector says otherwise)
+			cfg := hCfg{Cache: hCaches[op.N%len(hCaches)], Fast: op.N%5 != 0, Flush: 100 * 1024}
+			if err := r.readerOp(&hOp{T: "ropen", A: op.A, Cfg: &cfg}); err != nil {
+				return err
+			}
+			rd = r.rd[op.A]
+		}
+		if rd.imm == nil {
+			if err := r.readerOp(&hOp{T: "rsnap", A: op.A, N: op.N}); err != nil {
+				return err
+			}
+			if rd.imm == nil {
+				return nil // nothing saved yet
+			}
 		}
 		s := r.m.vers[rd.ver]
 		if s == nil {
